@@ -61,6 +61,13 @@ func (vc *VC) runModelTests(verif, prop string, ex *ExtraChecks) {
 		out, runErr := cmd.CombinedOutput()
 		os.RemoveAll(tmp)
 		entry := map[string]interface{}{"check": "model test " + name, "kind": "bounded validation of an assumed contract (not a proof)", "bound": meta["bound"], "package": meta["dir"], "wall_s": time.Since(start).Seconds()}
+		assumption := fmt.Sprintf("assumed contract validated only by a bounded test: %s (%s)", name, meta["bound"])
+		if meta["kind"] == "function" {
+			// a function of the repository that is outside the verified subset: bounded stand-in, labelled as such
+			entry["check"] = "bounded check " + name
+			entry["kind"] = "bounded check of a repository function outside the verified subset (stand-in, not a proof; never counted as proved)"
+			assumption = fmt.Sprintf("NOT PROVED, bounded stand-in only: %s (%s)", name, meta["bound"])
+		}
 		if runErr == nil && strings.Contains(string(out), "ok") {
 			entry["result"] = "agrees with the real code on every generated case"
 		} else {
@@ -73,6 +80,6 @@ func (vc *VC) runModelTests(verif, prop string, ex *ExtraChecks) {
 			})
 		}
 		ex.Bounded = append(ex.Bounded, entry)
-		ex.Assumptions = append(ex.Assumptions, fmt.Sprintf("assumed contract validated only by a bounded test: %s (%s)", name, meta["bound"]))
+		ex.Assumptions = append(ex.Assumptions, assumption)
 	}
 }
